@@ -55,6 +55,7 @@ def _operand(ctx, fi, call):
 def run(ctx: Ctx):
     repo, res = ctx.repo, ctx.res
     res.rule("LAYOUT-ONLY", "the tensor argument flows to every return only through reshape/moveaxis/transpose and sibling layout functions; elsewhere it is only read for shape/ndim (=> no entry dropped, duplicated, rounded or re-typed, given the primitives are bijections on entries)", floor=9)
+    res.rule("AXIS-LIVE", "every ordering parameter (mode, row_modes, column_modes, skip_begin) reaches an axis argument of moveaxis/transpose (or a sibling layout call) on every return path, or selects that path by a test: a reshape alone cannot realise a requested ordering", floor=9)
     res.rule("INVERSE-MIRROR", "fold/partial_fold = moveaxis(reshape(u, L), D, S) with the same source/destination axis expressions as unfold/partial_unfold = reshape(moveaxis(t, S, D), ...), and L = shape with axis S popped and re-inserted at D", floor=2)
     res.rule("FORWARD", "partial_tensor_to_vec / partial_vec_to_tensor delegate with mode=0 and forward skip_begin, skip_end under their own names", floor=2)
     res.assume(
@@ -65,6 +66,7 @@ def run(ctx: Ctx):
     fis = {n: repo.func(f"{BASE}.{n}") for n in FUNCS}
     for n, fi in fis.items():
         ctx.guarded(layout_only, ctx, fi)
+        ctx.guarded(axis_live, ctx, fi)
     ctx.guarded(inverse_mirror, ctx, fis["unfold"], fis["fold"])
     ctx.guarded(inverse_mirror, ctx, fis["partial_unfold"], fis["partial_fold"])
     ctx.guarded(forward, ctx, fis["partial_tensor_to_vec"], fis["partial_unfold"], {"mode": 0, "ravel_tensors": True})
@@ -136,6 +138,88 @@ def layout_only(ctx: Ctx, fi):
 
 
 # ---------------------------------------------------------------------------------
+ORDER_PARAMS = ("mode", "row_modes", "column_modes", "skip_begin")
+
+
+def _controls(fnode, target):
+    """test expressions a statement is control-dependent on: tests of enclosing ifs and of
+    earlier sibling ifs that leave the function (guards)."""
+    out = []
+
+    def walk(stmts, inherited):
+        guards = list(inherited)
+        for s in stmts:
+            if s is target:
+                out.extend(guards)
+                return True
+            if isinstance(s, ast.If):
+                if walk(s.body, guards + [s.test]) or walk(s.orelse, guards + [s.test]):
+                    return True
+                if any(isinstance(x, ast.Return) for x in ast.walk(s)):
+                    guards.append(s.test)  # an earlier `if ...: return` selects among layouts
+            elif isinstance(s, (ast.For, ast.While, ast.With, ast.Try)):
+                for fld in ("body", "orelse", "finalbody"):
+                    if walk(getattr(s, fld, []) or [], guards):
+                        return True
+                for h in getattr(s, "handlers", []) or []:
+                    if walk(h.body, guards):
+                        return True
+        return False
+
+    walk(fnode.body, [])
+    return out
+
+
+def axis_live(ctx: Ctx, fi):
+    from ..cfg import names_in
+    from .c02 import dependent_returns
+
+    res = ctx.res
+    params = [p for p in ORDER_PARAMS if p in fi.all_params]
+    rets = [r for r in own_scope_nodes(fi.node) if isinstance(r, ast.Return) and r.value is not None]
+    for p in params:
+        # names whose *value* is computed from p (pure data dependence, flow-insensitive)
+        tainted = {p}
+        changed = True
+        while changed:
+            changed = False
+            for st in own_scope_nodes(fi.node):
+                tg, val = None, None
+                if isinstance(st, ast.Assign):
+                    tg, val = st.targets, st.value
+                elif isinstance(st, ast.AugAssign):
+                    tg, val = [st.target], st.value
+                elif isinstance(st, ast.For):
+                    tg, val = [st.target], st.iter
+                if tg is None or not (names_in(val) & tainted):
+                    continue
+                for t in tg:
+                    for x in ast.walk(t):
+                        if isinstance(x, ast.Name) and x.id not in tainted:
+                            tainted.add(x.id)
+                            changed = True
+        for r in rets:
+            axis_args = []
+            for c in ast.walk(r.value):
+                if isinstance(c, ast.Call):
+                    kind, tgt = _callee(ctx, fi, c)
+                    if kind == "prim" and tgt == "moveaxis":
+                        axis_args.extend(c.args[1:3])
+                    elif kind == "prim" and tgt == "transpose":
+                        axis_args.extend(c.args[1:2])
+                        axis_args.extend(k.value for k in c.keywords if k.arg in ("axes",))
+                    elif kind == "sibling":
+                        # a sibling layout function given the parameter does the re-ordering
+                        b = bind_call(c, tgt, bound=False)
+                        axis_args.extend(v for k, v in b.params.items() if k in ORDER_PARAMS)
+            by_data = any(names_in(a) & tainted for a in axis_args)
+            by_ctrl = any(names_in(t) & tainted for t in _controls(fi.node, r))
+            ok = by_data or by_ctrl
+            res.instance("AXIS-LIVE", f"{fi.qname}: `{p}` -> {src(r)[:60]}", sample={"axis_arguments": [src(a) for a in axis_args], "by_data": by_data, "by_control": by_ctrl})
+            if not ok:
+                ctx.finding("AXIS-LIVE", fi, r, f"this return of `{fi.name}` re-arranges the tensor without `{p}` reaching any axis argument (moveaxis / transpose) and without being selected by a test on `{p}`: a reshape alone cannot order entries by `{p}`, so the layout requested through `{p}` is ignored on this path", construct=f"{src(r)[:90]} ignores {p}")
+
+
 def _canon(e):
     """Canonical form of an axis expression: sorted sum terms (commutativity of +)."""
     terms = []
